@@ -123,10 +123,16 @@ Proof. induction a; cbn; [reflexivity|now f_equal]. Qed.
 
 Section Walk.
 Variable c : ccfg.
-Hypothesis Hnosuffix : cc_suffix c = None.
 
-Lemma sent_name_plain p k u d : sent_name c (PF (p ++ [k]) u d) = k.
-Proof. unfold sent_name. cbn [pf_name pf_user]. rewrite last_last, Hnosuffix. apply app_nil_r. Qed.
+(* reverse copy: ".host" behind the names the user gave *)
+Definition suffix_of (u : bool) : bytes :=
+  match cc_suffix c with Some h => if u then c_dot :: h else [] | None => [] end.
+
+Lemma sent_name_eq p k u d : sent_name c (PF (p ++ [k]) u d) = k ++ suffix_of u.
+Proof. unfold sent_name, suffix_of. cbn [pf_name pf_user]. now rewrite last_last. Qed.
+
+Lemma suffix_of_false : suffix_of false = [].
+Proof. unfold suffix_of. destruct (cc_suffix c); reflexivity. Qed.
 
 (* one entry of the list, not the sentinel, whose node is n: its records, then the rest *)
 Lemma client_entry f rest n rs nm :
@@ -158,21 +164,21 @@ Lemma walk_node : forall n prefix k u rest rs,
   (prefix <> [] \/ beq k sentinel = false) ->
   client_files c None (PF (prefix ++ [k]) u (is_dir_node n) :: rexpand (prefix ++ [k]) n ++ rest)
                (repeat Ack (n_acks (cc_preserve c) n) ++ rs) =
-  encode (cc_preserve c) k n ++ client_files c None rest rs.
+  encode (cc_preserve c) (k ++ suffix_of u) n ++ client_files c None rest rs.
 Proof.
   induction n as [m t d|m t ents IHn] using node_ind2; intros prefix k u rest rs Hwf Hl Hne.
   - (* file *)
     cbn [rexpand app n_acks].
     replace ((if cc_preserve c then 1 else 0) + 2)%nat with ((if cc_preserve c then 1 else 0) + (1 + 1))%nat by lia.
     rewrite repeat_app, <- app_assoc.
-    rewrite (client_entry (PF (prefix ++ [k]) u (is_dir_node (File m t d))) rest (File m t d) (repeat Ack (1 + 1) ++ rs) k);
-      [|apply not_sentinel; exact Hne|exact Hl|apply sent_name_plain].
+    rewrite (client_entry (PF (prefix ++ [k]) u (is_dir_node (File m t d))) rest (File m t d) (repeat Ack (1 + 1) ++ rs) (k ++ suffix_of u));
+      [|apply not_sentinel; exact Hne|exact Hl|apply sent_name_eq].
     cbn [repeat app expect encode Nat.add]. rewrite send_data_id. rewrite <- !app_assoc. reflexivity.
   - (* directory *)
     rewrite rexpand_dir, n_acks_dir, encode_dir.
     rewrite repeat_app, <- !app_assoc.
-    rewrite (client_entry (PF (prefix ++ [k]) u (is_dir_node (Dir m t ents))) _ (Dir m t ents) _ k);
-      [|apply not_sentinel; exact Hne|exact Hl|apply sent_name_plain].
+    rewrite (client_entry (PF (prefix ++ [k]) u (is_dir_node (Dir m t ents))) _ (Dir m t ents) _ (k ++ suffix_of u));
+      [|apply not_sentinel; exact Hne|exact Hl|apply sent_name_eq].
     replace (1 + n_acks_list (cc_preserve c) ents + 1)%nat with (1 + (n_acks_list (cc_preserve c) ents + 1))%nat by lia.
     rewrite (repeat_app Ack 1). cbn [repeat app expect]. rewrite <- ?app_assoc. f_equal. f_equal.
     destruct (proj1 (wf_names_dir _ _ _) Hwf) as [Hdist Hwfl].
@@ -191,6 +197,7 @@ Proof.
         assert (Hin : In (k2, v2) ents) by (rewrite Hsplit; apply in_or_app; right; left; reflexivity).
         rewrite Forall_forall in IHn.
         pose proof (IHn (k2, v2) Hin (prefix ++ [k]) k2 false) as IHv. cbn [snd] in IHv.
+        rewrite suffix_of_false, app_nil_r in IHv.
         rewrite <- !app_assoc in IHv.
         rewrite IHv.
         + f_equal. apply (IHl (done ++ [(k2, v2)])); [rewrite <- app_assoc; exact Hsplit|exact Hw2].
@@ -208,6 +215,8 @@ End Walk.
 Definition src := (path * name * node)%type.
 Definition src_path (s : src) : path := let '(pre, k, _) := s in pre ++ [k].
 Definition src_entry (s : src) : name * node := let '(_, k, n) := s in (k, n).
+(* the entry as the receiver is told to name it *)
+Definition sent_entry (c : ccfg) (s : src) : name * node := let '(_, k, n) := s in (k ++ suffix_of c true, n).
 
 Fixpoint top_files (l : list src) : list pfile :=
   match l with
@@ -227,27 +236,26 @@ Qed.
 
 Section WalkAll.
 Variable c : ccfg.
-Hypothesis Hnosuffix : cc_suffix c = None.
 
 Lemma walk_all : forall (l : list src) rs,
   (forall pre k n, In (pre, k, n) l ->
      wf_names n /\ lookup (cc_fs c) (cc_cwd c ++ pre ++ [k]) = Some n /\ (pre <> [] \/ beq k sentinel = false)) ->
-  client_files c None (top_files l) (repeat Ack (n_acks_list (cc_preserve c) (map src_entry l)) ++ rs) =
-  encode_list (cc_preserve c) (map src_entry l).
+  client_files c None (top_files l) (repeat Ack (n_acks_list (cc_preserve c) (map (sent_entry c) l)) ++ rs) =
+  encode_list (cc_preserve c) (map (sent_entry c) l).
 Proof.
   induction l as [|[[pre k] n] r IH]; intros rs H.
   - reflexivity.
-  - cbn [top_files map src_entry]. rewrite n_acks_list_cons, encode_list_cons, repeat_app, <- app_assoc.
+  - cbn [top_files map sent_entry]. rewrite n_acks_list_cons, encode_list_cons, repeat_app, <- app_assoc.
     destruct (H pre k n (or_introl eq_refl)) as (Hw & Hl & Hs).
-    rewrite (walk_node c Hnosuffix n pre k true _ _ Hw Hl Hs). f_equal.
+    rewrite (walk_node c n pre k true _ _ Hw Hl Hs). f_equal.
     apply IH. intros. apply H. right. assumption.
 Qed.
 
 Theorem client_all_acks (l : list src) rs :
   (forall pre k n, In (pre, k, n) l ->
      wf_names n /\ lookup (cc_fs c) (cc_cwd c ++ pre ++ [k]) = Some n /\ (pre <> [] \/ beq k sentinel = false)) ->
-  client c (top_files l) (repeat Ack (1 + n_acks_list (cc_preserve c) (map src_entry l)) ++ rs) =
-  encode_list (cc_preserve c) (map src_entry l).
+  client c (top_files l) (repeat Ack (1 + n_acks_list (cc_preserve c) (map (sent_entry c) l)) ++ rs) =
+  encode_list (cc_preserve c) (map (sent_entry c) l).
 Proof.
   intro H. unfold client. cbn [repeat Nat.add app expect]. apply walk_all. exact H.
 Qed.
